@@ -5586,6 +5586,7 @@ func (p *Parser) handleError(r any, l *Lexer) {
 
 	p.errors = append(p.errors, e)
 	p.Lexer = l
+	verifHook("Recover", p.Lexer, false, int(e.Position.Pos), int(e.Position.End), len(p.errors))
 }
 
 func (p *Parser) handleParseStatementError(r any, l *Lexer) *ast.BadNode {
@@ -5605,6 +5606,7 @@ skip:
 		p.Lexer.nextToken(true)
 	}
 
+	verifHook("Bad", p.Lexer, true, int(pos), int(end), len(tokens))
 	return &ast.BadNode{
 		NodePos: pos,
 		NodeEnd: end,
@@ -5641,6 +5643,7 @@ skip:
 		p.Lexer.nextToken(true)
 	}
 
+	verifHook("Bad", p.Lexer, true, int(pos), int(end), len(tokens))
 	return &ast.BadQueryExpr{
 		BadNode: &ast.BadNode{
 			NodePos: pos,
@@ -5679,6 +5682,7 @@ skip:
 		p.Lexer.nextToken(true)
 	}
 
+	verifHook("Bad", p.Lexer, true, int(pos), int(end), len(tokens))
 	return &ast.BadExpr{
 		BadNode: &ast.BadNode{
 			NodePos: pos,
@@ -5727,6 +5731,7 @@ skip:
 		p.Lexer.nextToken(true)
 	}
 
+	verifHook("Bad", p.Lexer, true, int(pos), int(end), len(tokens))
 	return &ast.BadType{
 		BadNode: &ast.BadNode{
 			NodePos: pos,
